@@ -486,6 +486,9 @@ pub fn run(tier: &str) -> i32 {
     // multi-file runs: ordered pairs / triples from a 12-file pool (rule names made distinct per file)
     let pool_idx: Vec<usize> = (0..12).map(|k| (k * 97 + 15) % progs.len()).collect();
     let pool: Vec<File> = pool_idx.iter().enumerate().map(|(k, pi)| tag_messages(&rename_rules(&progs[*pi], &format!("f{}", k)), &format!("f{}", k))).collect();
+    // one of the twelve files holds no rule at all (an empty rules file is skipped, the files after it are not)
+    let mut pool = pool;
+    pool[11] = File::default();
     let mut combos: Vec<Vec<usize>> = vec![];
     for a in 0..12 {
         for b2 in 0..12 {
